@@ -262,6 +262,26 @@ pub fn find_chrom<'a>(v: &'a Vec<ChromInfo>, chrom_name: &Name) -> (r: Option<&'
     }
     None
 }
+/// `V.iter().find(|&x| x.name != chrom_name)`: the FIRST entry whose name DIFFERS (what `find` with that predicate
+/// returns; 0 hits on /repo)
+pub fn find_chrom_ne<'a>(v: &'a Vec<ChromInfo>, chrom_name: &Name) -> (r: Option<&'a ChromInfo>)
+    ensures
+        r matches Some(c) ==> exists|k: int| 0 <= k < v@.len() && v@[k] == *c && v@[k].name != *chrom_name
+            && forall|j: int| 0 <= j < k ==> (#[trigger] v@[j]).name == *chrom_name,
+        r is None ==> forall|j: int| 0 <= j < v@.len() ==> (#[trigger] v@[j]).name == *chrom_name,
+{
+    let mut i: usize = 0;
+    while i < v.len()
+        invariant i <= v.len(), forall|j: int| 0 <= j < i ==> (#[trigger] v@[j]).name == *chrom_name,
+        decreases v.len() - i,
+    {
+        if !name_eq(&v[i].name, chrom_name) {
+            return Some(&v[i]);
+        }
+        i = i + 1;
+    }
+    None
+}
 /// `V.iter().position(|x| x.name == chrom_name)` (0 hits on /repo; lets an edit that uses the table POSITION
 /// reach the verifier): the index of the first entry with that name
 pub fn position_chrom(v: &Vec<ChromInfo>, chrom_name: &Name) -> (r: Option<usize>)
